@@ -32,7 +32,7 @@ type ownMonitor struct {
 	}
 	taskRun [sim.MaxTasks]*fast.Run // the runtime record each task uses
 	idents  [8]*sim.Task            // reuse-stress: idents[i] = live task holding simulated identity i+1
-	nident int
+	nident  int
 
 	viol     string
 	violKey  string
